@@ -28,7 +28,7 @@ ASSUMPTIONS = {
     "vtc_len_utf8": "char::len_utf8", "vtc_len_utf16": "char::len_utf16", "vu_min": "usize::min",
     "CharIndices": "std::str::CharIndices", "vt_char_indices": "str::char_indices yields (byte offset, char) for each char in order",
     "next": "Iterator::next of CharIndices",
-    "vt_is_empty": "str::is_empty", "vt_ends_with_char": "str::ends_with(char)",
+    "vt_is_empty": "str::is_empty", "vt_is_char_boundary": "str::is_char_boundary: true exactly at the byte offsets where a char starts, and at the end", "vt_ends_with_char": "str::ends_with(char)",
     "vt_lines_count": "str::lines().count(): one line per '\\n', plus one for a non-empty unterminated last line",
     "vt_last_line_utf16": "str::lines().last() of a text that does not end in '\\n' is the text after its last '\\n' (a bare trailing '\\r' is kept, Rust >= 1.77)",
     "vu_saturating_sub": "usize::saturating_sub",
@@ -74,6 +74,22 @@ pub fn vt_ends_with_char(s: &str, c: char) -> (r: bool) ensures r == (s@.len() >
 pub fn vu_saturating_sub(a: usize, b: usize) -> (r: usize) ensures r == (if a >= b { a - b } else { 0 }) { a.saturating_sub(b) }
 """
 GLUE_AFTER_SPECS = """
+/// `s.is_char_boundary(i)`: the start, the end, or the first byte of a char; false past the end
+#[verifier::external_body]
+pub fn vt_is_char_boundary(s: &str, i: usize) -> (r: bool) ensures r == is_cbt(s@, i as int) { s.is_char_boundary(i) }
+/// the last char boundary at or before byte offset o
+pub open spec fn floor_cb(cs: Seq<char>, o: int) -> int decreases o {
+    if o <= 0 || is_cbt(cs, o) { o } else { floor_cb(cs, o - 1) }
+}
+pub proof fn lemma_floor_cb(cs: Seq<char>, o: int)
+    requires 0 <= o <= blen_cs(cs),
+    ensures is_cbt(cs, floor_cb(cs, o)), 0 <= floor_cb(cs, o) <= o, is_cbt(cs, o) ==> floor_cb(cs, o) == o,
+    decreases o,
+{
+    lemma_off_zero(cs);
+    assert(off(cs, 0) == 0);
+    if o <= 0 || is_cbt(cs, o) { } else { lemma_floor_cb(cs, o - 1); }
+}
 /// `s.lines().count()`
 #[verifier::external_body]
 pub fn vt_lines_count(s: &str) -> (r: usize)
@@ -143,7 +159,7 @@ pub proof fn lemma_lines_count(cs: Seq<char>)
 
 # the position denoted by (line_number, byte offset `o`) of the document
 def o2l(o, ln):
-    return ("({{ let o = (if {o} <= blen_cs(src@) {{ {o} as int }} else {{ blen_cs(src@) as int }});"
+    return ("({{ let o = floor_cb(src@, (if {o} <= blen_cs(src@) {{ {o} as int }} else {{ blen_cs(src@) as int }}));"
             " r.character == off_to_character(src@, cix(src@, o)) as u32 && r.line == {ln} as u32 }})").format(o=o, ln=ln)
 
 
@@ -153,6 +169,7 @@ def clamp_cb(o):
 
 RULES = [
     rw.simple("R2", r"\boffset\.min\(src\.len\(\)\)", "vu_min(offset, vt_len(src))"),
+    rw.simple("R2", r"\bsrc\.is_char_boundary\((\w+)\)", r"vt_is_char_boundary(src, \1)"),
     # R13b: `X.rfind(c).map_or(D, |v| BODY)` is `match X.rfind(c) { Some(v) => BODY, None => D }`
     rw.simple("R13b", r"src\[\.\.(\w+)\]\.(r?find)\(('(?:\\.|[^'])')\)\.map_or\((\w+), \|(\w+)\| ([^)]*)\)",
               r"match vt_\2_char(vt_slice(src, 0, \1), \3) { Some(\5) => \6, None => \4 }"),
@@ -247,9 +264,14 @@ def build(tier):
     u.add_type(POS, "Position", subst=[(r"\bstruct Position\b", "struct GardenPosition")])
     c29 = {"C29"}
     u.add_fn(LSP, "offset_to_lsp_position", rules=RULES, contract=Contract(
-        requires=[("offset_on_char_boundary", clamp_cb("offset"))],
         ensures=[("is_lsp_position_of_offset", o2l("offset", "line_number"))],
+        loops={1: dict(invariant=[("in_range", "offset <= blen_cs(src@)"),
+                                  ("same_boundary_below", "floor_cb(src@, offset as int) == floor_cb(src@, o0 as int)")],
+                       decreases="offset",
+                       body_prelude="proof { lemma_off_zero(src@); assert(off(src@, 0) == 0); }")},
         hints=[
+            dict(anchor="while", where="before", name="clamped",
+                 text="let ghost o0 = offset; proof { lemma_floor_cb(src@, o0 as int); }"),
             dict(anchor="let line_start", where="before", name="boundary_facts",
                  text="proof { lemma_cix_props(src@, offset as int); lemma_cix(src@, 0); lemma_off_zero(src@);\n"
                       "    assert(src@.subrange(0, cix(src@, offset as int)) =~= src@.take(cix(src@, offset as int))); }"),
@@ -260,7 +282,6 @@ def build(tier):
         ],
         props=c29, safety_props={"C28", "C29"}))
     u.add_fn(LSP, "garden_pos_to_lsp_range", rules=RULES, contract=Contract(
-        requires=[("start_on_char_boundary", clamp_cb("pos.start_offset")), ("end_on_char_boundary", clamp_cb("pos.end_offset"))],
         ensures=[("start_is_lsp_position", o2l("pos.start_offset", "pos.line_number").replace("r.", "r.start.")),
                  ("end_is_lsp_position", o2l("pos.end_offset", "pos.end_line_number").replace("r.", "r.end."))],
         props=c29, safety_props={"C28", "C29"}))
